@@ -423,4 +423,109 @@ theorem fold_inj_located {H : Bytes → Bytes} (hlen : ∀ x, (H x).length = 32)
       · exact Or.inl (Or.inr hy)
       · exact Or.inr (Or.inr hy)
 
+/-! ### the branch check of /repo 5751cd9 -/
+
+theorem verifyLoop_eq (H : Bytes → Bytes) (ins : List InnerNode) : ∀ c,
+    verifyLoop H c ins = if ins.all goodBranch then some (ins.foldl (innerNodeProofHash H) c) else none := by
+  induction ins with
+  | nil => intro c; simp [verifyLoop]
+  | cons b rest ih =>
+    intro c
+    simp only [verifyLoop, List.all_cons, List.foldl_cons]
+    by_cases hb : goodBranch b = true
+    · simp [hb, ih]
+    · simp [hb]
+
+/-- the current `Proof.Verify` = the old one, and every branch passes the check. -/
+theorem verify_eq_old (H : Bytes → Bytes) (p : Proof) (k v root : Bytes) :
+    Proof.verify H p k v root = (Proof.verifyOld H p k v root && p.inners.all goodBranch) := by
+  unfold Proof.verify Proof.verifyOld
+  by_cases h1 : (p.rootHash != root) = true
+  · simp [h1]
+  · simp only [h1, if_false]
+    by_cases h2 : (H (leafEnc k v) != last32 p.leafHash) = true
+    · simp [h2]
+    · simp only [h2, if_false, verifyLoop_eq]
+      by_cases h3 : p.inners.all goodBranch = true
+      · simp [h3]
+      · simp [h3]
+
+theorem verifyKV_eq_old (H : Bytes → Bytes) (root k v pb : Bytes) :
+    verifyKVPairProof H root k v pb =
+      (verifyKVPairProofOld H root k v pb && (match decodeProof pb with | none => false | some ins => ins.all goodBranch)) := by
+  unfold verifyKVPairProof verifyKVPairProofOld
+  cases decodeProof pb with
+  | none => simp
+  | some ins => simp [verify_eq_old]
+
+theorem verifyKV_old_of_new {H : Bytes → Bytes} {root k v pb : Bytes}
+    (h : verifyKVPairProof H root k v pb = true) : verifyKVPairProofOld H root k v pb = true := by
+  rw [verifyKV_eq_old] at h
+  simp at h
+  exact h.1
+
+/-- inner nodes have the shape the check of 5751cd9 demands: height ≥ 1, at least two leaves (true of every tree
+`set` builds: `C01.WF` gives it). -/
+def Shape : Node → Prop
+  | .leaf .. => True
+  | .inner _ ht sz l r _ => Shape l ∧ Shape r ∧ 1 ≤ ht ∧ 2 ≤ sz
+
+theorem size_pos_of_WF (t : Node) (h : WF t) : 1 ≤ t.size := by
+  induction t with
+  | leaf k v m => simp
+  | inner k ht sz l r m ihl ihr =>
+    obtain ⟨hl, hr, _, es, _, _⟩ := h
+    have := ihl hl
+    simp [es]; omega
+
+theorem shape_of_WF (t : Node) (h : WF t) : Shape t := by
+  induction t with
+  | leaf k v m => trivial
+  | inner k ht sz l r m ihl ihr =>
+    obtain ⟨hl, hr, eh, es, _, _⟩ := h
+    have a := size_pos_of_WF l hl
+    have b := size_pos_of_WF r hr
+    exact ⟨ihl hl, ihr hr, by omega, by omega⟩
+
+theorem constructProof_good (t : Node) (hs : Shape t) (key : Bytes) :
+    ∀ v lh ins, constructProof t key = .found v lh ins → ins.all goodBranch = true := by
+  induction t with
+  | leaf k v0 m =>
+    intro v lh ins e
+    simp only [constructProof] at e
+    split at e
+    · split at e <;> simp at e
+      obtain ⟨_, _, rfl⟩ := e
+      rfl
+    · simp at e
+  | inner k ht sz l r m ihl ihr =>
+    obtain ⟨sl, sr, h1, h2⟩ := hs
+    intro v lh ins e
+    simp only [constructProof] at e
+    have hg : ∀ a b : Bytes, goodBranch ⟨a, b, ht, sz⟩ = true := by
+      intro a b; simp [goodBranch]; omega
+    split at e
+    · cases hc : constructProof l key with
+      | absent => simp [hc] at e
+      | nohash => simp [hc] at e
+      | found v' lh' ins' =>
+        rw [hc] at e
+        simp only at e
+        split at e
+        · simp at e
+          obtain ⟨rfl, rfl, rfl⟩ := e
+          simp [List.all_append, ihl sl v' lh' ins' hc, hg]
+        · simp at e
+    · cases hc : constructProof r key with
+      | absent => simp [hc] at e
+      | nohash => simp [hc] at e
+      | found v' lh' ins' =>
+        rw [hc] at e
+        simp only at e
+        split at e
+        · simp at e
+          obtain ⟨rfl, rfl, rfl⟩ := e
+          simp [List.all_append, ihr sr v' lh' ins' hc, hg]
+        · simp at e
+
 end C03
